@@ -140,6 +140,9 @@ func genExtension(g *prng.R, idx int) extSpec {
 	nP := g.Range(1, 8)
 	if idx == 0 {
 		nT = 6 // the first vocabulary of every run has a chain of mixed-parent types, see below
+		if nP < 2 {
+			nP = 2 // and at least the two natural-language properties
+		}
 	}
 	var es extSpec
 	var members []interface{}
@@ -366,6 +369,12 @@ func genExtension(g *prng.R, idx int) extSpec {
 			// the first property is always a natural-language one, so that every
 			// extension exercises the 'Map' spelling
 			rv = []interface{}{"xsd:string", "rdf:langString"}
+		}
+		if i == 1 && idx == 0 {
+			// and in the first vocabulary of a run the second one lists
+			// rdf:langString first: the order inside a range means nothing
+			// (finding 22)
+			rv = []interface{}{"rdf:langString", "xsd:string"}
 		}
 		m := map[string]interface{}{"id": "https://ext.example/ns#" + name, "type": typ, "name": name, "notes": "Generated extension property.",
 			"domain": map[string]interface{}{"type": "owl:Class", "unionOf": dom}, "range": map[string]interface{}{"type": "owl:Class", "unionOf": rv},
